@@ -677,7 +677,9 @@ def producers_rules(ctx):
             mod=fp.module, node=fp.node, function=ctx.fq(fp), expected="for item in input: uri, path = item.split(','); add_cache_slot(uri, open(path,'rb').read())",
             found=f"{[repr(a)[:200] for a, g in adds]} guards {[len(g) for a, g in adds]}")
     rej = [o for o in ev.outcomes(fp) if o.kind == "raise"]
-    cond_ok = any(any(c == App("<", (App("len", (split,)), Const(2))) for c in o.conds) for o in rej)
+    _few = (App("<", (App("len", (split,)), Const(2))), App("not", (App(">=", (App("len", (split,)), Const(2))),)), App("<=", (App("len", (split,)), Const(1))),
+            App("not", (App(">", (App("len", (split,)), Const(1))),)))
+    cond_ok = any(any(c in _few for c in o.conds) for o in rej)
     R.check("C10-D3d producers", cond_ok, "from_payloads: an item without a comma is rejected, an item with one is accepted", mod=fp.module, node=fp.node,
             function=ctx.fq(fp), expected="raise exactly when len(item.split(',')) < 2", found=f"{[[repr(c)[:60] for c in o.conds[-1:]] for o in rej]}")
     mf = repo.func(MOD, "CacheMerge.merge_cache_files")
